@@ -16,6 +16,7 @@
 #include <errno.h>
 #include <fcntl.h>
 #include <limits.h>
+#include <pthread.h>
 #include <stdarg.h>
 #include <stdint.h>
 #include <stdio.h>
@@ -27,11 +28,12 @@
 #include <sys/uio.h>
 #include <unistd.h>
 
-enum { C_NONE = 0, C_INPUT, C_SIBLING, C_OUTPUT, C_DIR, C_NCLS };
-static const char *cls_name[] = {"none", "input", "sibling", "output", "dir"};
+enum { C_NONE = 0, C_INPUT, C_SIBLING, C_OUTPUT, C_DIR, C_OUTTMP, C_NCLS };
+/* outtmp: any other file under the root that the program opens for writing (a temporary output file) */
+static const char *cls_name[] = {"none", "input", "sibling", "output", "dir", "outtmp"};
 
-enum { S_OPEN = 0, S_READ, S_WRITE, S_WRITEV, S_CLOSE, S_OPENDIR, S_READDIR, S_CLOSEDIR, S_STAT, S_FSTAT, S_NSYM };
-static const char *sym_name[] = {"open", "read", "write", "writev", "close", "opendir", "readdir", "closedir", "stat", "fstat"};
+enum { S_OPEN = 0, S_READ, S_WRITE, S_WRITEV, S_CLOSE, S_OPENDIR, S_READDIR, S_CLOSEDIR, S_STAT, S_FSTAT, S_RENAME, S_FSYNC, S_TRUNC, S_UNLINK, S_NSYM };
+static const char *sym_name[] = {"open", "read", "write", "writev", "close", "opendir", "readdir", "closedir", "stat", "fstat", "rename", "fsync", "ftruncate", "unlink"};
 
 enum { K_ERRNO = 0, K_SHORT };
 
@@ -44,7 +46,7 @@ struct fault {
 
 #define MAXFAULT 64
 #define MAXFD 4096
-#define MAXDIR 16
+#define MAXDIR 256
 #define MAXORDER 64
 
 static int g_init_done;
@@ -263,6 +265,50 @@ void verifsim_thread_dirperm(uint64_t seed) {
 uint64_t verifsim_thread_getrandom_calls(void) { return t_gr_calls; }
 int verifsim_version(void) { return 1; }
 
+/* ---------------------------------------------------------------- process identity and clock (plan only) */
+
+/* A tool may legitimately put its pid or the time into the name of a temporary file: both are sources of
+   nondeterminism the simulator has to own, or traces would differ between two runs of the same plan. */
+pid_t getpid(void) {
+    load_plan();
+    if (g_have_plan) return 4242;
+    return (pid_t)syscall(SYS_getpid);
+}
+
+#include <time.h>
+#include <sys/time.h>
+static unsigned long g_clock_calls;
+int clock_gettime(clockid_t clk, struct timespec *ts) {
+    load_plan();
+    if (g_have_plan && ts) {
+        unsigned long n = __atomic_fetch_add(&g_clock_calls, 1, __ATOMIC_RELAXED);
+        ts->tv_sec = 1700000000L + (long)(n / 1000);
+        ts->tv_nsec = (long)(n % 1000) * 1000000L;
+        trace("clock_gettime clk=%d call=%lu", (int)clk, n);
+        return 0;
+    }
+    return (int)syscall(SYS_clock_gettime, clk, ts);
+}
+int gettimeofday(struct timeval *tv, void *tz) {
+    load_plan();
+    if (g_have_plan && tv) {
+        unsigned long n = __atomic_fetch_add(&g_clock_calls, 1, __ATOMIC_RELAXED);
+        tv->tv_sec = 1700000000L + (long)(n / 1000);
+        tv->tv_usec = (long)(n % 1000) * 1000L;
+        return 0;
+    }
+    return (int)syscall(SYS_gettimeofday, tv, tz);
+}
+time_t time(time_t *t) {
+    load_plan();
+    if (g_have_plan) {
+        time_t v = 1700000000L;
+        if (t) *t = v;
+        return v;
+    }
+    return (time_t)syscall(SYS_time, t);
+}
+
 /* ---------------------------------------------------------------- entropy */
 
 ssize_t getrandom(void *buf, size_t len, unsigned int flags) {
@@ -292,6 +338,7 @@ ssize_t getrandom(void *buf, size_t len, unsigned int flags) {
 static int do_open(int dirfd, const char *path, int flags, mode_t mode, int is_at) {
     load_plan();
     int cls = classify(dirfd, path);
+    if (cls == C_SIBLING && (flags & O_ACCMODE) != O_RDONLY) cls = C_OUTTMP;
     if (cls != C_NONE) {
         long idx;
         struct fault *f = next_fault(S_OPEN, cls, &idx);
@@ -441,6 +488,85 @@ ssize_t writev(int fd, const struct iovec *iov, int iovcnt) {
     return syscall(SYS_writev, fd, iov, iovcnt);
 }
 
+/* ---------------------------------------------------------------- rename / fsync / ftruncate / unlink */
+
+static int do_rename(int olddirfd, const char *oldp, int newdirfd, const char *newp, unsigned int flags, int sysno3) {
+    load_plan();
+    int cls = classify(newdirfd, newp);
+    if (cls == C_NONE || cls == C_SIBLING) {
+        int c2 = classify(olddirfd, oldp);
+        if (c2 != C_NONE) cls = (cls == C_SIBLING && c2 == C_SIBLING) ? C_SIBLING : (cls == C_NONE ? c2 : cls);
+    }
+    if (cls != C_NONE) {
+        long idx;
+        struct fault *f = next_fault(S_RENAME, cls, &idx);
+        if (f && f->kind == K_ERRNO) {
+            trace("rename %s idx=%ld %s -> %s -> errno %ld !inj", cls_name[cls], idx, oldp, newp, f->arg);
+            errno = (int)f->arg;
+            return -1;
+        }
+    }
+    long r = sysno3 ? syscall(SYS_renameat2, olddirfd, oldp, newdirfd, newp, flags) : syscall(SYS_renameat, olddirfd, oldp, newdirfd, newp);
+    int e = errno;
+    if (cls != C_NONE) trace("rename %s %s -> %s -> %ld", cls_name[cls], oldp, newp, r);
+    errno = e;
+    return (int)r;
+}
+int rename(const char *o, const char *n) { return do_rename(AT_FDCWD, o, AT_FDCWD, n, 0, 0); }
+int renameat(int od, const char *o, int nd, const char *n) { return do_rename(od, o, nd, n, 0, 0); }
+int renameat2(int od, const char *o, int nd, const char *n, unsigned int fl) { return do_rename(od, o, nd, n, fl, 1); }
+
+static int fd_fault(int sym, int fd) {
+    int cls = (fd >= 0 && fd < MAXFD) ? g_fdcls[fd] : C_NONE;
+    if (cls != C_NONE) {
+        long idx;
+        struct fault *f = next_fault(sym, cls, &idx);
+        if (f && f->kind == K_ERRNO) {
+            trace("%s %s idx=%ld -> errno %ld !inj", sym_name[sym], cls_name[cls], idx, f->arg);
+            errno = (int)f->arg;
+            return -1;
+        }
+        trace("%s %s idx=%ld -> real", sym_name[sym], cls_name[cls], idx);
+    }
+    return 0;
+}
+int fsync(int fd) {
+    if (fd_fault(S_FSYNC, fd)) return -1;
+    return (int)syscall(SYS_fsync, fd);
+}
+int fdatasync(int fd) {
+    if (fd_fault(S_FSYNC, fd)) return -1;
+    return (int)syscall(SYS_fdatasync, fd);
+}
+int ftruncate64(int fd, off64_t len) {
+    if (fd_fault(S_TRUNC, fd)) return -1;
+    return (int)syscall(SYS_ftruncate, fd, len);
+}
+int ftruncate(int fd, off_t len) {
+    if (fd_fault(S_TRUNC, fd)) return -1;
+    return (int)syscall(SYS_ftruncate, fd, len);
+}
+static int do_unlink(int dirfd, const char *path, int flags) {
+    load_plan();
+    int cls = classify(dirfd, path);
+    if (cls != C_NONE) {
+        long idx;
+        struct fault *f = next_fault(S_UNLINK, cls, &idx);
+        if (f && f->kind == K_ERRNO) {
+            trace("unlink %s idx=%ld path=%s -> errno %ld !inj", cls_name[cls], idx, path, f->arg);
+            errno = (int)f->arg;
+            return -1;
+        }
+    }
+    long r = syscall(SYS_unlinkat, dirfd, path, flags);
+    int e = errno;
+    if (cls != C_NONE) trace("unlink %s path=%s -> %ld", cls_name[cls], path, r);
+    errno = e;
+    return (int)r;
+}
+int unlink(const char *p) { return do_unlink(AT_FDCWD, p, 0); }
+int unlinkat(int d, const char *p, int fl) { return do_unlink(d, p, fl); }
+
 /* ---------------------------------------------------------------- stat family */
 
 int statx(int dirfd, const char *path_nn, int flags, unsigned int mask, struct statx *buf) {
@@ -529,19 +655,30 @@ static int cmp_ent(const void *a, const void *b) {
     return strcmp(((const struct dirent64 *)a)->d_name, ((const struct dirent64 *)b)->d_name);
 }
 
+/* the table is shared by all threads of an in-process harness: slot allocation and release are serialised; a slot
+   itself is only ever used by the thread that iterates that DIR */
+static pthread_mutex_t g_dirs_lock = PTHREAD_MUTEX_INITIALIZER;
+
 static struct dstate *dir_state(DIR *d, int create) {
+    struct dstate *found = NULL;
+    pthread_mutex_lock(&g_dirs_lock);
     for (int i = 0; i < MAXDIR; i++)
-        if (g_dirs[i].used && g_dirs[i].d == d) return &g_dirs[i];
-    if (!create) return NULL;
-    for (int i = 0; i < MAXDIR; i++)
-        if (!g_dirs[i].used) {
-            memset(&g_dirs[i], 0, sizeof g_dirs[i]);
-            g_dirs[i].used = 1;
-            g_dirs[i].d = d;
-            g_dirs[i].pos = -1;
-            return &g_dirs[i];
+        if (g_dirs[i].used && g_dirs[i].d == d) {
+            found = &g_dirs[i];
+            break;
         }
-    return NULL;
+    if (!found && create)
+        for (int i = 0; i < MAXDIR; i++)
+            if (!g_dirs[i].used) {
+                memset(&g_dirs[i], 0, sizeof g_dirs[i]);
+                g_dirs[i].used = 1;
+                g_dirs[i].d = d;
+                g_dirs[i].pos = -1;
+                found = &g_dirs[i];
+                break;
+            }
+    pthread_mutex_unlock(&g_dirs_lock);
+    return found;
 }
 
 DIR *opendir(const char *path) {
@@ -640,8 +777,13 @@ int closedir(DIR *d) {
     REAL(int, closedir, DIR *)
     struct dstate *s = dir_state(d, 0);
     if (s) {
-        free(s->ents);
+        struct dirent64 *e = s->ents;
+        pthread_mutex_lock(&g_dirs_lock);
+        s->ents = NULL;
+        s->d = NULL;
         s->used = 0;
+        pthread_mutex_unlock(&g_dirs_lock);
+        free(e);
     }
     return real_closedir(d);
 }
